@@ -2739,7 +2739,17 @@ impl Node for XmlDocumentType {
     }
 
     fn parent_node(&self) -> Option<XmlNode> {
-        Some(XmlDocument::from(self.declaration.borrow().parent()).as_node())
+        // the document is the parent as long as it lists this declaration (not after remove_child)
+        let document = self.declaration.borrow().parent();
+        let listed = document
+            .borrow()
+            .document_declaration()
+            .is_some_and(|v| Rc::ptr_eq(&v, &self.declaration));
+        if listed {
+            Some(XmlDocument::from(document).as_node())
+        } else {
+            None
+        }
     }
 
     fn child_nodes(&self) -> XmlNodeList {
